@@ -244,6 +244,7 @@ class Interp:
         elif kind in ("post_create", "post_recv_nocorr", "post_recv_corr"):
             def routine(_c, q, pair):
                 self.block(body)
+                self.retire(q)
             if kind == "post_create":
                 sock.create_keep(number=2, post_routine=routine, sequential=True)
             else:
@@ -252,18 +253,31 @@ class Interp:
         elif kind == "ctx_create":
             with sock.create_context(number=2) as (q, pair):
                 self.block(body)
+                self.retire(q)
         elif kind == "ctx_recv":
             with sock.recv_context(number=2) as (q, pair):
                 self.block(body)
+                self.retire(q)
         else:
             raise IllFormed(kind)
 
-    def compile_only(self):
-        """what flush does, minus sending (C14 direct run)"""
+    @staticmethod
+    def retire(q):
+        """the pair's qubit is consumed by the routine: free it; a tree where Qubit.free()
+        does not retire the handle (C09) needs the host-side flag cleared by hand, otherwise
+        no further qubit can be created while a FutureQubit is active"""
+        q.free()
+        if q.active:
+            q.active = False
+
+    def compile_only(self, assemble=True):
+        """what flush does, minus sending (C14 direct run).  assemble=False stops after the
+        builder (the assembler needs up to two scratch registers of its own, C03)"""
         b = self.conn._builder
         proto = b.subrt_pop_pending_subroutine()
         if proto is not None:
-            b.subrt_compile_subroutine(proto)
+            if assemble:
+                b.subrt_compile_subroutine(proto)
             b._reset()
 
     def flush(self):
@@ -420,6 +434,7 @@ class Gen:
         self.flush_p = flush_p
         self.features = features  # None = all constructs
         self.allow_skipped_measreg = False
+        self.epr = False            # EPR operations (C14 only: their commands are not modelled)
         self.reset()
 
     def reset(self):
@@ -434,6 +449,7 @@ class Gen:
         self.nvar = 0
         self.vars = []          # stack of dict(v, kind: 'reg'|'rf'|'elem'|'both', lo, hi, arr)
         self.kinds = {}
+        self.in_epr = 0
         self.meas_count = 0     # upper bound on dynamic number of measurements (script length)
         self.mult = 1           # product of enclosing iteration counts
 
@@ -572,7 +588,7 @@ class Gen:
         rng = self.rng
         live = self.usable_qubits()
         choices = []
-        if len(self.live) < self.max_qubits:
+        if len(self.live) < self.max_qubits and self.in_epr == 0:
             choices += ["newq"] * 3
         if live:
             choices += ["gate"] * 3 + ["rot", "meas_inplace"]
@@ -597,6 +613,8 @@ class Gen:
                 choices += ["foreach"]
             if self.want("until"):
                 choices += ["until"]
+            if self.epr and self.in_epr == 0:   # no EPR request while a pair's FutureQubit is active
+                choices += ["epr"] * 2
         if not choices:
             return None
         k = rng.choice(choices)
@@ -686,6 +704,17 @@ class Gen:
             body = self.in_loop(depth, d["len"], rng.randint(1, 3))
             self.vars.pop()
             return ["foreach", int(enum), v, a, body]
+        if k == "epr":
+            kind = rng.choice(list(EPR_COQ))
+            if kind.startswith("post") or kind.startswith("ctx"):
+                self.cond_depth += 1
+                self.in_epr += 1      # no Qubit() while the pair's FutureQubit is active (SDK limitation)
+                body = self.in_loop(depth, 2, rng.randint(0, 2))
+                self.in_epr -= 1
+                self.cond_depth -= 1
+            else:
+                body = []
+            return ["epr", kind, body]
         if k == "until":
             maxit = rng.choice([1, 2, 3, 4])
             if self.mult * maxit > 40:
@@ -729,7 +758,7 @@ class Gen:
         rng = self.rng
         body = self.gen_block(depth, rng.randint(0, 2))
         r = rng.random()
-        if r < 0.7 and len(self.live) < self.max_qubits:
+        if r < 0.7 and len(self.live) < self.max_qubits and self.in_epr == 0:
             q = self.nq
             self.nq += 1
             self.qlevel[q] = depth
@@ -786,6 +815,54 @@ class Gen:
         return renumber_arrays(prog), script
 
 
+def gen_sequence(rng, n_ops, flush_every, epr=True, max_depth=4):
+    """C14: one long run of completed operations of every kind on one connection,
+    a flush after every `flush_every`-th (0 = only at the end)"""
+    g = Gen(rng, max_depth=max_depth, max_qubits=4)
+    g.epr = epr
+    g.allow_skipped_measreg = True     # only compilation matters here
+    g.reset()
+    g.cond_depth = 0
+    g.pending_regs = []
+    prog, top = [], []
+    while len(prog) < n_ops:
+        s = g.gen_stmt(0, top)
+        if s is None:
+            continue
+        prog.append(s)
+        if flush_every and len(prog) % flush_every == 0:
+            prog.append(["flush"])
+            g.regs = []
+            g.nreg_block = 0
+        elif g.nreg_block >= 11:
+            prog.append(["flush"])
+            g.regs = []
+            g.nreg_block = 0
+    prog.append(["flush"])
+    return renumber_arrays(prog)
+
+
+def nest(k, inner, kinds, rng):
+    """k open operations around `inner` (C14: agreement on failure when the nesting is too deep)"""
+    s = inner
+    for d in range(k):
+        kind = rng.choice(kinds)
+        v = 1000 + d
+        if kind == "loop":
+            s = [["loop", rng.randint(0, 1), v, 0, 2, 1, s]]
+        elif kind == "foreach":
+            s = [["foreach", rng.randint(0, 1), v, 0, s]]
+        elif kind == "until":
+            s = [["until", v, 2, s, ["fut", 0, ["c", 0]], 0, []]]
+        elif kind == "if":
+            s = [["if", rng.choice(CONDS[:4]), rng.randint(0, 1), ["fut", 0, ["c", 0]], ["fut", 0, ["c", 1]], s]]
+        elif kind == "post":
+            s = [["epr", "post_recv_corr", s]]
+        elif kind == "ctx":
+            s = [["epr", "ctx_create", s]]
+    return s
+
+
 def renumber_arrays(prog):
     """array names = addresses in the order the builder will allocate them (statements
     dropped during generation leave gaps)"""
@@ -797,6 +874,9 @@ def renumber_arrays(prog):
                 order.append(s[1])
             elif s[0] == "measnew":
                 order.append(s[3])
+            elif s[0] == "epr":
+                for _ in range(EPR_NARR[s[1]]):
+                    order.append(("epr", len(order)))
             for part in bodies(s):
                 decl(part)
 
@@ -981,9 +1061,12 @@ def coq_stmt(s):
     raise IllFormed(s)
 
 
-EPR_COQ = dict(keep_create="EKeep", keep_recv_nocorr="EKeep", measure_create="EKeep", measure_recv="EKeep",
-               recv_corr="ERecvCorr", post_create="(EPost false)", post_recv_nocorr="(EPost false)",
-               post_recv_corr="(EPost true)", ctx_create="ECtx", ctx_recv="ECtx")
+EPR_COQ = dict(keep_create="(EKeep 3)", keep_recv_nocorr="(EKeep 2)", measure_create="(EKeep 2)",
+               measure_recv="(EKeep 1)", recv_corr="ERecvCorr", post_create="(EPost false 3)",
+               post_recv_nocorr="(EPost false 2)", post_recv_corr="(EPost true 2)", ctx_create="(ECtx 3)",
+               ctx_recv="(ECtx 2)")
+EPR_NARR = dict(keep_create=3, keep_recv_nocorr=2, measure_create=2, measure_recv=1, recv_corr=2, post_create=3,
+                post_recv_nocorr=2, post_recv_corr=2, ctx_create=3, ctx_recv=2)
 
 
 def coq_block(b):
